@@ -10,6 +10,7 @@ namespace C13
   int run_q1_2d(const FEAT::Dist::Comm&, FEAT::SimpleArgParser&, bool);
   int run_q2_2d(const FEAT::Dist::Comm&, FEAT::SimpleArgParser&, bool);
   int run_q1_3d(const FEAT::Dist::Comm&, FEAT::SimpleArgParser&, bool);
+  int run_synthetic(const FEAT::Dist::Comm&, const FEAT::String&, FEAT::Index, FEAT::Index);
 }
 
 int main(int argc, char* argv[])
@@ -23,6 +24,13 @@ int main(int argc, char* argv[])
   args.support("space");
   args.support("solve");
   args.support("splitter");
+  args.support("synthetic");
+  if(args.check("synthetic") >= 3)
+  {
+    FEAT::String kind; FEAT::Index n(0), m(0);
+    args.parse("synthetic", kind, n, m);
+    return C13::run_synthetic(comm, kind, n, m);
+  }
   auto unsupported = args.query_unsupported();
   if(!unsupported.empty() || args.check("mesh") < 1 || args.check("level") < 1)
   {
